@@ -22,6 +22,7 @@ inductive Exit where
   | alphaNaN   -- `!isfinite(alpha)`: NaN step and value
   | overLong   -- `‖z + alpha d‖ >= Δ`: boundary point at the non-negative root
   | interior   -- residual rule or iteration cap
+  | zeroGrad   -- `grad_mag == 0`: the origin, value 0, before the loop
   | fuel
   deriving DecidableEq, Repr, Inhabited
 
@@ -107,12 +108,20 @@ def cgStart (g : Vec α) : St α :=
 /-- Enough budget for every run: an iteration with `i > max_iter` never continues. -/
 def cgFuel (maxIter : Int) : Nat := (maxIter + 2).toNat + 1
 
-/-- `SteihaugCG::solve(grad, hess_prod, trust_radius, step)` with
-    `params = {tol_scale, tol_scale_root, tol_max, ·}` and `max_iter` already rounded. -/
-def steihaug (cs : α → α → α) (B : Vec α → Vec α) (g : Vec α) (Δ : α)
+/-- The loop of `solve` from the initial state (what `solve` does for a non-zero gradient). -/
+def steihaugLoop (cs : α → α → α) (B : Vec α → Vec α) (g : Vec α) (Δ : α)
     (tolMax tolScale tolRoot : α) (maxIter : Int) : Res α :=
   let tol := cgTolerance tolMax tolScale tolRoot (cgInit g).2.2.2
   cgLoop cs B g Δ tol maxIter (cgFuel maxIter) (cgStart g)
+
+/-- `SteihaugCG::solve(grad, hess_prod, trust_radius, step)` with
+    `params = {tol_scale, tol_scale_root, tol_max, ·}` and `max_iter` already rounded.
+    A zero gradient (`grad_mag == 0`) returns the origin with value 0 before the loop; the
+    workspaces then hold the initial state (`z = 0, r = g, d = −g`). -/
+def steihaug (cs : α → α → α) (B : Vec α → Vec α) (g : Vec α) (Δ : α)
+    (tolMax tolScale tolRoot : α) (maxIter : Int) : Res α :=
+  if cgZeroGrad (cgInit g).2.2.2 then ⟨zeros g.length, 0, .zeroGrad, cgStart g, 0⟩
+  else steihaugLoop cs B g Δ tolMax tolScale tolRoot maxIter
 
 /-- Dense Hessian as rows; the harness computes `B v` as one left-fold dot product per row. -/
 def matVec (rows : List (Vec α)) (v : Vec α) : Vec α := rows.map fun row => dot row v
